@@ -780,3 +780,141 @@ pub fn c05_isolated(groups: &[(String, Vec<Box<dyn Subject>>, Vec<Doc>)], secs: 
         }
     }
 }
+
+// ------------------------------------------------------------------------------------------------
+// C10, parser half: stream a long generated document (never materialised) through a parser and
+// measure the peak live heap of the parsing thread with the counting allocator.
+
+/// `prefix`, then `period` repeated `repeats` times, then `suffix`; at most `grain` bytes per read.
+pub struct GenSource {
+    pub prefix: Vec<u8>,
+    pub period: Vec<u8>,
+    pub repeats: u64,
+    pub suffix: Vec<u8>,
+    pub grain: usize,
+    pub pos: u64,
+}
+
+impl GenSource {
+    pub fn total(&self) -> u64 {
+        self.prefix.len() as u64 + self.period.len() as u64 * self.repeats + self.suffix.len() as u64
+    }
+    fn byte_at(&self, p: u64) -> u8 {
+        let pl = self.prefix.len() as u64;
+        let body = self.period.len() as u64 * self.repeats;
+        if p < pl {
+            self.prefix[p as usize]
+        } else if p < pl + body {
+            self.period[((p - pl) % self.period.len() as u64) as usize]
+        } else {
+            self.suffix[(p - pl - body) as usize]
+        }
+    }
+}
+
+impl std::io::Read for GenSource {
+    fn read(&mut self, buf: &mut [u8]) -> std::io::Result<usize> {
+        let left = self.total() - self.pos;
+        let n = (buf.len().min(self.grain.max(1)) as u64).min(left) as usize;
+        for (i, b) in buf[..n].iter_mut().enumerate() {
+            *b = self.byte_at(self.pos + i as u64);
+        }
+        self.pos += n as u64;
+        Ok(n)
+    }
+}
+
+pub struct StreamCase {
+    pub label: String,
+    pub prefix: Vec<u8>,
+    pub period: Vec<u8>,
+    pub suffix: Vec<u8>,
+    /// size of the largest single item (line / clause) in bytes
+    pub max_item: usize,
+}
+
+/// Returns (peak heap bytes, items, clean end?)
+pub fn stream_once(subject: &dyn Subject, case: &StreamCase, total_bytes: u64, chunk: usize, grain: usize) -> (usize, u64, End) {
+    let repeats = total_bytes / case.period.len().max(1) as u64;
+    let src = GenSource { prefix: case.prefix.clone(), period: case.period.clone(), repeats, suffix: case.suffix.clone(), grain, pos: 0 };
+    let mut items = 0u64;
+    crate::alloc::start();
+    let res = crate::subject::catch(|| {
+        let mut reader = flussab::DeferredReader::from_read(src);
+        reader.set_chunk_size(chunk);
+        subject.run(reader, &mut |_item| items += 1)
+    });
+    let (peak, _) = crate::alloc::stop();
+    let end = match res {
+        Ok(e) => e,
+        Err((m, l)) => End::Panic { msg: m, loc: l },
+    };
+    (peak, items, end)
+}
+
+/// A subject wrapper is not needed: `emit` receives a String per item; its allocation is part of the
+/// harness, so the bound includes one item rendering (`item_slack`).
+pub fn c10_streams(subjects: &[(Box<dyn Subject>, StreamCase)], tier: Tier, report: &mut Report) {
+    let total: u64 = tier.pick(4 << 20, 256 << 20);
+    let chunks: &[usize] = tier.pick(&[16, 256, 4096][..], &[16, 64, 256, 4096, 16384][..]);
+    let mut units: Vec<(usize, usize, usize)> = Vec::new();
+    for si in 0..subjects.len() {
+        for &chunk in chunks {
+            for grain in [1usize, (chunk / 2).max(1), chunk] {
+                if grain == 1 && total > (64 << 20) {
+                    continue; // byte-wise delivery of 256 MiB only for the quick size
+                }
+                units.push((si, chunk, grain));
+            }
+        }
+    }
+    let total_rep = crate::par::par_fold(
+        units.len(),
+        crate::threads(),
+        Report::new,
+        |acc, i| {
+            let (si, chunk, grain) = units[i];
+            let (subject, case) = &subjects[si];
+            // two lengths: the bound must not depend on the number of bytes processed
+            let mut peaks = Vec::new();
+            for n in [total / 4, total] {
+                let (peak, items, end) = stream_once(subject.as_ref(), case, n, chunk, grain);
+                acc.evaluations += 1;
+                acc.transitions += items;
+                acc.states += 1;
+                acc.nontrivial += 1;
+                acc.count("bytes_streamed", n);
+                acc.outcome(format!("{}:{}", case.label, end.kind()));
+                // the harness renders each item into a String: allow a few of them
+                let bound = 8 * chunk + 8 * case.max_item + 4096 + 16 * case.max_item;
+                acc.max(&format!("peak_heap_{}_chunk{}", case.label, chunk), peak as u64);
+                peaks.push(peak);
+                if !matches!(end, End::Clean) {
+                    acc.violation(format!("{}/streaming-memory/not-clean", case.label), format!("{} streaming {} bytes (chunk {chunk}, {grain} bytes per read) ended with {}", subject.name(), n, end.short()), json!({"property": "C10", "subject": subject.name(), "case": case.label, "bytes": n, "chunk": chunk, "grain": grain}), n);
+                } else if peak > bound {
+                    acc.violation(format!("{}/streaming-memory/bound", case.label), format!("{} streaming {} bytes (chunk {chunk}, {grain} bytes per read, items <= {} bytes): peak live heap {peak} bytes exceeds the bound {bound} = 8*chunk + 24*max_item + 4 KiB", subject.name(), n, case.max_item), json!({"property": "C10", "subject": subject.name(), "case": case.label, "bytes": n, "chunk": chunk, "grain": grain}), n);
+                }
+            }
+            if peaks[1] > peaks[0] + 64 {
+                acc.violation(format!("{}/streaming-memory/grows-with-input", case.label), format!("{} (chunk {chunk}, {grain} bytes per read): peak heap {} bytes for {} input bytes but {} bytes for {}", subject.name(), peaks[0], total / 4, peaks[1], total), json!({"property": "C10", "subject": subject.name(), "case": case.label, "bytes": total, "chunk": chunk, "grain": grain}), total);
+            }
+        },
+        |a, b| a.merge(b),
+    );
+    report.merge(total_rep);
+    for (s, c) in subjects {
+        report.completed.push(format!("{}: '{}' streamed at {} and {} bytes x chunk sizes {:?} x read grains {{1, chunk/2, chunk}}; peak live heap of the parsing thread <= 8*chunk + 24*max_item + 4 KiB and independent of the length", s.name(), c.label, total / 4, total, chunks));
+    }
+    report.sample(json!({"case": subjects[0].1.label, "period": show(&subjects[0].1.period), "bytes": total, "chunk": chunks[0], "grain": 1}));
+}
+
+pub fn c10_replay(subject: &dyn Subject, case: &StreamCase, v: &Value) -> (bool, String) {
+    let n = v["bytes"].as_u64().unwrap();
+    let chunk = v["chunk"].as_u64().unwrap() as usize;
+    let grain = v["grain"].as_u64().unwrap() as usize;
+    let (p1, _, e1) = stream_once(subject, case, n / 4, chunk, grain);
+    let (p2, items, e2) = stream_once(subject, case, n, chunk, grain);
+    let bound = 8 * chunk + 24 * case.max_item + 4096;
+    let bad = !matches!(e2, End::Clean) || p2 > bound || p2 > p1 + 64;
+    (bad, format!("{} streaming '{}' (chunk {chunk}, {grain} bytes per read): {} bytes -> peak {p1} ({}); {} bytes -> peak {p2}, {items} items ({}); bound {bound}\n", subject.name(), case.label, n / 4, e1.short(), n, e2.short()))
+}
